@@ -338,36 +338,10 @@ def place(cx):
             else:
                 ok = len(args) == 3 and args[0] == "self.obstacle_shape.shapes" and args[1] == sp and args[2] == "self.wheelbase_lengths"
         res.check("OCC-PLACE", "initial occupancy = occupancy of (own shape, new initial state)", ok, fk.mod, s, norm(s), "the initial occupancy is computed from something else than the obstacle's shape and the state being stored", qualname=fk.name)
-    # 4. per-state occupancies of a trajectory prediction
-    fk = cx.fn(P, "TrajectoryPrediction", "_create_occupancy_set")
-    rd = ReachingDefs(fk.fn)
-    loops = [n_ for n_ in walk_no_nested(fk.fn) if isinstance(n_, ast.For)]
-    ok = len(loops) == 1 and canon(loops[0].iter, rd, loops[0], []) in ("self.trajectory.state_list",)
-    res.check("OCC-PLACE", "occupancy set iterates the trajectory's state list", ok, fk.mod, loops[0] if loops else fk.fn, "for .. in %s" % (norm(loops[0].iter) if loops else "?"), "occupancies are not computed for exactly the predicted states", qualname=fk.name)
-    if loops:
-        lv = norm(loops[0].target)
-        eff = cx.eff
-        occs = [c for c in ast.walk(loops[0]) if isinstance(c, ast.Call) and call_name(c) == "Occupancy"]
-        res.check("OCC-PLACE", "one Occupancy per state", len(occs) == 1, fk.mod, loops[0], "%d Occupancy(..) constructions in the loop" % len(occs), "not exactly one occupancy per predicted state", qualname=fk.name)
-        for c in occs:
-            args = list(c.args) + [k.value for k in c.keywords]
-            if len(args) != 2:
-                continue
-            ts = canon(args[0], rd, rd.stmt_of(c), [])
-            ok = ts == "%s.time_step" % lv or (isinstance(args[0], ast.Attribute) and args[0].attr == "time_step" and _same_state(rd, args[0].value, rd.stmt_of(c), lv))
-            res.check("OCC-PLACE", "occupancy is stamped with its state's time step", ok, fk.mod, c, "Occupancy(%s, ..)" % ts, "the occupancy computed for one state carries another time step", qualname=fk.name)
-            # the region derives from the same loop element
-            region_defs = rd.defs(args[1].id, c) if isinstance(args[1], ast.Name) else []
-            for d in region_defs:
-                v = d.node
-                okc = isinstance(v, ast.Call) and call_name(v) in ("occupancy_shape_from_state", "shape_group_occupancy_shape_from_state")
-                if okc:
-                    a = [canon(x, rd, d.stmt, []) for x in v.args]
-                    if call_name(v) == "occupancy_shape_from_state":
-                        okc = a[0] == "self.shape" and _same_state(rd, v.args[1], d.stmt, lv)
-                    else:
-                        okc = a[0] == "self.shape.shapes" and _same_state(rd, v.args[1], d.stmt, lv) and a[2] == "self.wheelbase_lengths"
-                res.check("OCC-PLACE", "occupied region = occupancy of (prediction shape, this state)", okc, fk.mod, d.stmt, norm(d.stmt), "the region is not the prediction's shape placed at the state whose time step it carries", qualname=fk.name)
+    # 4. per-state occupancies of a trajectory prediction: decided by abstract evaluation (c04ev)
+    from . import c04ev
+
+    c04ev.occupancy_set_rule(repo, res)
     # 5. time-independent occupancies
     for cname, slot in (("StaticObstacle", "self._initial_occupancy_shape"), ("EnvironmentObstacle", "self._obstacle_shape")):
         fk = cx.fn(O, cname, "occupancy_at_time")
@@ -467,7 +441,15 @@ def dispatch(cx):
             if f is None or (len(f.body) <= 2 and all(isinstance(x, (ast.Pass, ast.Expr)) for x in f.body)):
                 continue
             n_lookup += 1
-            lookup_rule(cx, FnKey(c, f, mod), lists)
+            rd_ = ReachingDefs(f)
+            indexed = any(isinstance(n, ast.Subscript) and isinstance(n.ctx, ast.Load) and canon(n.value, rd_, rd_.stmt_of(n), []) in lists for n in walk_no_nested(f))
+            if rel == P and not indexed:
+                # search form: decided by abstract evaluation; index form: by guard implication over linear forms
+                from . import c04ev
+
+                c04ev.prediction_lookup_rule(repo, res, c, f)
+            else:
+                lookup_rule(cx, FnKey(c, f, mod), lists)
     if n_lookup < 2:
         raise AnalysisError("only %d time-step lookup methods found (2 confirmed)" % n_lookup)
 
@@ -572,47 +554,11 @@ def scenario(cx):
     used = {n.attr for n in ast.walk(fk.fn) if isinstance(n, ast.Attribute) and norm(n.value) == "self"}
     res.check("OCC-SCENARIO", "Scenario.obstacles covers all registries %s" % sorted(stores), stores <= used, fk.mod, fk.fn, "Scenario.obstacles reads %s" % sorted(used), "obstacles of role(s) stored in %s are missing from Scenario.obstacles and hence from every query over it" % sorted(stores - used), qualname=fk.name)
 
-    # occupancies_at_time_step
-    fk = cx.fn(S, "Scenario", "occupancies_at_time_step")
-    _query_loop(cx, fk, "occupancy_at_time", want_iter={"self.obstacles"}, role_param="obstacle_role")
-    fk = cx.fn(S, "Scenario", "obstacle_states_at_time_step")
-    tp = [a.arg for a in fk.fn.args.args][1]
-    for loop in [n for n in walk_no_nested(fk.fn) if isinstance(n, ast.For)]:
-        lv = norm(loop.target)
-        it = norm(loop.iter)
-        for s in ast.walk(loop):
-            if isinstance(s, ast.Assign) and isinstance(s.targets[0], ast.Subscript):
-                key = norm(s.targets[0].slice)
-                val = s.value
-                ok = key == "%s.obstacle_id" % lv
-                res.check("OCC-SCENARIO", "states are keyed by the id of the obstacle they belong to (%s)" % it, ok, fk.mod, s, norm(s), "a state is filed under another obstacle's id", qualname=fk.name)
-                if it == "self.dynamic_obstacles":
-                    ok = isinstance(val, ast.Call) and norm(val.func) == "%s.state_at_time" % lv and [norm(a) for a in val.args] == [tp]
-                elif it == "self.static_obstacles":
-                    ok = norm(val) in ("%s.initial_state" % lv, "%s.state_at_time(%s)" % (lv, tp))
-                else:
-                    ok = isinstance(val, ast.Call) and norm(val.func) == "%s.state_at_time" % lv and [norm(a) for a in val.args] == [tp]
-                res.check("OCC-SCENARIO", "state of %s elements is the per-obstacle answer at the queried time step" % it, ok, fk.mod, s, norm(s), "the scenario-level answer differs from what the obstacle itself answers", qualname=fk.name)
-        for t in ast.walk(loop):
-            if isinstance(t, ast.Call) and isinstance(t.func, ast.Attribute) and t.func.attr == "state_at_time":
-                res.check("OCC-SCENARIO", "state_at_time asked at the queried time step", [norm(a) for a in t.args] == [tp] and norm(t.func.value) == lv, fk.mod, t, norm(t), "another time step / obstacle is asked than the one reported", qualname=fk.name)
-    its = {norm(n.iter) for n in walk_no_nested(fk.fn) if isinstance(n, ast.For)}
-    res.check("OCC-SCENARIO", "obstacle_states_at_time_step covers dynamic and static obstacles", {"self.dynamic_obstacles", "self.static_obstacles"} <= its or "self.obstacles" in its, fk.mod, fk.fn, "loops over %s" % sorted(its), "obstacles of a role with states are missing from the answer", qualname=fk.name)
+    # occupancies_at_time_step, obstacle_states_at_time_step, obstacles_by_role_and_type: decided by abstract
+    # evaluation on a scenario with one obstacle of every role (c04ev)
+    from . import c04ev
 
-    # obstacles_by_role_and_type
-    fk = cx.fn(S, "Scenario", "obstacles_by_role_and_type")
-    loops = [n for n in walk_no_nested(fk.fn) if isinstance(n, ast.For)]
-    ok = len(loops) == 1 and norm(loops[0].iter) == "self.obstacles"
-    res.check("OCC-SCENARIO", "role/type filter runs over all obstacles", ok, fk.mod, loops[0] if loops else fk.fn, "for .. in %s" % (norm(loops[0].iter) if loops else "?"), "obstacles of some role can never be returned", qualname=fk.name)
-    if loops:
-        lv = norm(loops[0].target)
-        apps = [c for c in ast.walk(loops[0]) if isinstance(c, ast.Call) and isinstance(c.func, ast.Attribute) and c.func.attr == "append"]
-        for c in apps:
-            res.check("OCC-SCENARIO", "the filter returns the obstacle it tested", [norm(a) for a in c.args] == [lv], fk.mod, c, norm(c), "something else than the tested obstacle is returned", qualname=fk.name)
-            guards = dominating_guards(fk.mod, c, stop=fk.fn)
-            for pname, attr in (("obstacle_role", "obstacle_role"), ("obstacle_type", "obstacle_type")):
-                ok = _filter_guard(guards, lv, attr, pname)
-                res.check("OCC-SCENARIO", "filter on %s: (param is None or obstacle.%s == param)" % (attr, attr), ok, fk.mod, c, "append under %s" % sorted(("" if p else "not ") + norm(t) for t, p in guards), "the %s filter does not compare the obstacle's %s with the requested one" % (attr, attr), qualname=fk.name)
+    c04ev.scenario_query_rules(repo, res)
 
     # obstacles_by_position_intervals  (layout independent: loops or comprehensions, inline tests or nested predicates)
     fk = cx.fn(S, "Scenario", "obstacles_by_position_intervals")
@@ -731,6 +677,15 @@ def run(repo, res, tier):
     res.rule("OCC-PLACE", "occupancies are the obstacle shape placed at the state they belong to", 18)
     res.rule("OCC-DISPATCH", "time-step dispatch of occupancy_at_time / state_at_time / *_at_time_step", 20)
     res.rule("OCC-SCENARIO", "scenario-level queries repeat the per-obstacle answers", 25)
+    res.rule("OCC-FRESH", "stored occupancies (initial occupancy shape, occupancy set of a prediction) are recomputed by every operation that replaces the state, shape or trajectory they were placed at", 8)
+    from . import c11
+
+    for cache_, _cls, fk_, verdict_, f_ in c11.verdicts(repo, res, want_cache=lambda c: "occupancy" in c.slot.lower()):
+        inst = "%s under %s: %s" % (cache_.name, fk_.name, verdict_)
+        if f_ is None:
+            res.ok("OCC-FRESH", inst)
+        else:
+            res.bad("OCC-FRESH", inst, Finding("OCC-FRESH", f_[0], f_[1], f_[2], "the stored occupancy still is the shape placed at the previous state / trajectory: occupancy_at_time answers with a region that is not the shape at the state of that time step", qualname=fk_.name))
     cx = Ctx(repo, res)
     protocol(cx)
     setters(cx)
